@@ -85,15 +85,20 @@ def generate():
     if inc not in lit:
         raise ExtractError("block_until: unexpected waiter increment literal %r" % inc)
     items.append(nat_def("waiterInc", lit[inc] + int(m.group(2))))
-    thr = re.findall(r"current_version_and_waiters\s*<=\s*(\S+?)\s*\)", blk)
-    if not thr or thr[0] not in lit:
+    thr2 = re.findall(r"current_version_and_waiters\s*(<=|<|>=|>|==|!=)\s*(\S+?)\s*\)", blk)
+    if not thr2 or thr2[0][1] not in lit:
         raise ExtractError("block_until: waiter threshold not found")
+    thr = [thr2[0][1]]
     items.append(nat_def("waiterThreshold", lit[thr[0]]))
+    ops = [thr2[0][0]]
     for name in ("wakeup_waiters", "set_version_and_wakeup_waiters"):
         b = norm(fn(SF + r"\s*" + name + r"\s*\("))
-        t = re.findall(r"current_version_and_waiters\s*<=\s*(\S+?)\s*\)", b)
-        if not t or t[0] not in lit or lit[t[0]] != lit[thr[0]]:
+        t = re.findall(r"current_version_and_waiters\s*(<=|<|>=|>|==|!=)\s*(\S+?)\s*\)", b)
+        if not t or t[0][1] not in lit or lit[t[0][1]] != lit[thr[0]]:
             raise ExtractError(name + ": waiter threshold differs")
+        ops.append(t[0][0])
+    # comparison operators of the three "no waiter mark" tests (block_until, wakeup_waiters, set_version_and_wakeup_waiters)
+    items.append('def waiterThresholdOps : List String := [%s]' % ", ".join('"%s"' % o for o in ops))
     sp = strip_comments(fn(SF + r"\s*spin_until_reach_expected_version_slow\s*\("))
     m = re.search(r"S::usleep\s*\(\s*(\d+)\s*\)", sp)
     if not m:
